@@ -18,10 +18,10 @@ package signaling_rpc_server
 //@   ensures t.seqno == old(t.seqno) && t.peerA == old(t.peerA) && t.peerB == old(t.peerB)
 //@ func (*serverPeerTracker).broadcast
 //@   modifies p
-//@   ensures p.listening == old(p.listening) && p.wantPeers == old(p.wantPeers)
+//@   ensures p.listening == old(p.listening) && p.wantPeers == old(p.wantPeers) && p.listenNonce == old(p.listenNonce)
 //@ func (*serverPeerTracker).getWaitCh
 //@   modifies p
-//@   ensures p.listening == old(p.listening) && p.wantPeers == old(p.wantPeers)
+//@   ensures p.listening == old(p.listening) && p.wantPeers == old(p.wantPeers) && p.listenNonce == old(p.listenNonce)
 
 
 // ---- C20: the relay forwards only authentic messages, to the session partner, in the current epoch ----
@@ -64,3 +64,41 @@ package signaling_rpc_server
 //@   cs Server.mtx ensures forall t *sessionPeerTracker trigger t.recv :: old(isobj(t)) && (t.recv != old(t.recv) || t.recvSent != old(t.recvSent) || t.recvClear != old(t.recvClear)) ==> (localIsPeerA ==> old(sess.peerA) == ourPeerTkr && t == old(sess.peerB)) && (!localIsPeerA ==> old(sess.peerB) == ourPeerTkr && t == old(sess.peerA))
 //@   cs Server.mtx ensures forall t *sessionPeerTracker trigger t.outAcked :: old(isobj(t)) ==> t.outAcked == old(t.outAcked)
 //@   cs Server.mtx ensures sess.seqno == old(sess.seqno) && sess.peerA == old(sess.peerA) && sess.peerB == old(sess.peerB)
+
+// ---- C24 / C25: the peer table ----
+// Every registered peer tracker is a live object with a want-set, and is registered for a reason:
+// a Listen call is attached to it or some peer wants a session with it (no leftover state).
+//@ lockinv Server.mtx: self.peers != nil && self.sessions != nil
+//@ lockinv Server.mtx: forall p string trigger dom(self.peers, p) :: (p in self.peers) ==> isobj(self.peers[p]) && self.peers[p].wantPeers != nil
+//@ lockinv Server.mtx: forall p string trigger dom(self.peers, p) :: (p in self.peers) ==> self.peers[p].listening || len(self.peers[p].wantPeers) > 0
+
+//@ func (*Server).getPeer
+//@   requires held(s.mtx) && s.peers != nil && isobj(s)
+//@   requires forall p string trigger dom(s.peers, p) :: (p in s.peers) ==> isobj(s.peers[p]) && s.peers[p].wantPeers != nil
+//@   modifies s.peers
+//@   ensures (pidStr in s.peers) && s.peers[pidStr] == ret0 && isobj(ret0) && ret0.wantPeers != nil && ret1 == old(pidStr in s.peers)
+//@   ensures ret1 ==> ret0 == old(s.peers[pidStr])
+//@   ensures !ret1 ==> fresh(ret0) && !ret0.listening && len(ret0.wantPeers) == 0 && ret0.listenNonce == 0
+//@   ensures forall p string trigger dom(s.peers, p) :: p != pidStr ==> ((p in s.peers) <==> old(p in s.peers)) && s.peers[p] == old(s.peers[p])
+//@   ensures held(s.mtx)
+
+//@ func (*Server).maybeReleasePeer
+//@   requires held(s.mtx) && s.peers != nil && isobj(s)
+//@   requires forall p string trigger dom(s.peers, p) :: (p in s.peers) ==> isobj(s.peers[p]) && s.peers[p].wantPeers != nil
+//@   modifies s.peers, s.peers[pidStr]
+//@   ensures ret <==> old((pidStr in s.peers) && !s.peers[pidStr].listening && len(s.peers[pidStr].wantPeers) == 0)
+//@   ensures ret ==> !(pidStr in s.peers)
+//@   ensures !ret ==> ((pidStr in s.peers) <==> old(pidStr in s.peers)) && s.peers[pidStr] == old(s.peers[pidStr])
+//@   ensures forall p string trigger dom(s.peers, p) :: p != pidStr ==> ((p in s.peers) <==> old(p in s.peers)) && s.peers[p] == old(s.peers[p])
+//@   ensures old(pidStr in s.peers) ==> old(s.peers[pidStr]).listening == old(s.peers[pidStr].listening) && old(s.peers[pidStr]).wantPeers == old(s.peers[pidStr].wantPeers) && old(s.peers[pidStr]).listenNonce == old(s.peers[pidStr].listenNonce)
+//@   ensures held(s.mtx)
+
+// Listen: every critical section of a Listen call (registration, each poll, cleanup) leaves the
+// entries and trackers of all other peers alone, and keeps the table invariants (in particular:
+// the tracker it registers is marked as listened-to, so it is not released under the listener).
+//@ func (*Server).Listen
+//@   noframe
+//@   nosweep nil-deref
+//@   requires isobj(s)
+//@   cs Server.mtx ensures forall p string trigger dom(self.peers, p) :: p != pidStr ==> ((p in self.peers) <==> old(p in self.peers)) && self.peers[p] == old(self.peers[p])
+//@   cs Server.mtx ensures forall t *serverPeerTracker trigger t.listening :: old(isobj(t)) && (!old(pidStr in self.peers) || t != old(self.peers[pidStr])) ==> t.listening == old(t.listening) && t.wantPeers == old(t.wantPeers) && t.listenNonce == old(t.listenNonce)
